@@ -14,7 +14,8 @@ PROP = "C04"
 COQ = dict(imports=["Spec.C04"], in_ty="input", out_ty="output", corr="corr_C04", decide="check_C04",
            inclass="inclass_C04", model="txn_run")
 THEOREMS = ["C04_decider_sound", "C04_main", "C04_version_rows", "C04_failed_not_recorded", "C04_all_or_nothing",
-            "C04_per_migration", "C04_nontransactional", "C04_success", "C04_inconsistent_refuted"]
+            "C04_per_migration", "C04_nontransactional", "C04_success", "C04_exception_kind_irrelevant",
+            "C04_inconsistent_refuted"]
 CASE_TIMEOUT = 60
 TRUSTED = [
     "the database small-step semantics of Model/Txn.v (TxDDL, ImplicitCommitDDL, Pysqlite) and the SQLAlchemy 2.0 autobegin / "
@@ -28,15 +29,19 @@ ASSUME = [
     "consistent configuration for the theorems: a single enclosing transaction (transactional_ddl=True without "
     "transaction_per_migration, or a caller-held transaction) is not combined with an implicit-commit database",
     "env.py is the stock wrapper: engine.connect() (or engine.begin() for a caller-held transaction), context.configure, "
-    "with context.begin_transaction(): context.run_migrations(); autocommit_block is not used online; failures are Python "
-    "exceptions raised between statements or in an on_version_apply callback, not database errors",
+    "with context.begin_transaction(): context.run_migrations(); failures are Python exceptions "
+    "(an Exception subclass, KeyboardInterrupt or SystemExit) raised between statements, inside an autocommit section or in "
+    "an on_version_apply callback, not database errors; autocommit sections are not nested",
 ]
-RULE = ("exhaustive small scope: {pysqlite default, transactional recipe} x transactional_ddl {unset,True,False} x "
+RULE = ("exhaustive small scope: {pysqlite default, transactional recipe} x transactional_ddl {True, unset/False} x "
         "transaction_per_migration x caller-held transaction {no,yes} x {upgrade from base, upgrade from r1, downgrade to base, "
-        "downgrade to r1} x linear histories of 1-3 migrations with <=2 statements each (4 DDL/DML layouts) x EVERY failure "
-        "position (before/between/after each statement of each migration, and in the on_version_apply callback after the "
-        "bookkeeping) plus the run without failure; thorough adds seeded random histories of up to 5 migrations with up to 4 "
-        "statements. non-trivial = a migration raised; distinct by encoded input")
+        "downgrade to r1} x linear histories of 1-3 migrations (4 DDL/DML layouts; 7 histories whose upgrade AND downgrade bodies "
+        "contain an autocommit_block section, also empty / first / only) x EVERY failure position (before/after each statement, "
+        "before and after an autocommit section, before each statement inside it, at its end, and in the on_version_apply "
+        "callback after the bookkeeping) plus the run without failure; the exception raised is an Exception subclass, "
+        "KeyboardInterrupt or SystemExit (all three for callback failures and 1-migration histories, rotating otherwise); "
+        "thorough adds seeded random histories of up to 5 migrations with up to 4 items and random autocommit sections. "
+        "non-trivial = a migration raised; distinct by encoded input")
 EXHAUSTIVE = {"quick": True, "thorough": True}
 DESIGN_REF = "DESIGN.md section 5 C04"
 TECHNIQUE = ("Coq proof (generic over a projection of the database state, induction on the step list, case analysis on which "
@@ -51,20 +56,52 @@ LEVEL_TEXT = ("Machine-checked for every number of migrations, every body, every
 LEVEL_NOTE = ("Trusted: Coq kernel+vm_compute, the database/driver semantics (validated on SQLite only), the harness. "
               "Implicit-commit DDL is proved over the model, not validated against a server. Histories are linear.")
 
-LAYOUTS = [[1, 0], [0, 1], [1, 1], [0]]       # 1 = DDL, 0 = DML
+LAYOUTS = [[1, 0], [0, 1], [1, 1], [0]]       # 1 = DDL, 0 = DML ; ("a", [...]) = autocommit section
+A1 = [1, ("a", [0, 1]), 0]
+A2 = [("a", [1])]
+A3 = [0, ("a", [])]
+EXCS = ["exc", "kbd", "exit"]                # Exception subclass / KeyboardInterrupt / SystemExit
 
 
-def _mk_history(n, off, layouts=LAYOUTS):
-    revs = []
-    for j in range(1, n + 1):
-        lay = layouts[(off + j - 1) % len(layouts)]
-        up = [[d, "add", (100 if d else 0) + 10 * j + p] for p, d in enumerate(lay)]
-        dn = [[d, "del", x] for d, _, x in reversed(up)]
-        revs.append({"up": up, "dn": dn})
-    return revs
+def _mk_rev(j, lay):
+    up, p = [], 0
+
+    def st(d):
+        nonlocal p
+        x = (100 if d else 0) + 10 * j + p
+        p += 1
+        return [d, "add", x]
+    for it in lay:
+        if isinstance(it, (tuple, list)):
+            up.append(["a", [st(d) for d in it[1]]])
+        else:
+            up.append(["s"] + st(it))
+    dn = []
+    for it in reversed(up):
+        if it[0] == "a":
+            dn.append(["a", [[d, "del", x] for d, _, x in reversed(it[1])]])
+        else:
+            dn.append(["s", it[1], "del", it[3]])
+    return {"up": up, "dn": dn}
 
 
-def _cases_for(revs, tag):
+def _mk_history(lays):
+    return [_mk_rev(j, lay) for j, lay in enumerate(lays, 1)]
+
+
+def _slots(body):
+    """failure points of a body in source order: ("out", t) before item t / after the last item,
+    ("in", t, q) inside autocommit section t before its q-th statement / after its last one"""
+    out = []
+    for t, it in enumerate(body):
+        out.append(("out", t))
+        if it[0] == "a":
+            out += [("in", t, q) for q in range(len(it[1]) + 1)]
+    out.append(("out", len(body)))
+    return out
+
+
+def _cases_for(revs, tag, all_excs=False, rot=[0]):
     n = len(revs)
     plans = [("upgrade", 0, n)]
     if n >= 2:
@@ -77,47 +114,61 @@ def _cases_for(revs, tag):
         fails = [None]
         for k, j in enumerate(order):
             body = revs[j - 1]["up" if cmd == "upgrade" else "dn"]
-            fails += [[k, "body", p] for p in range(len(body) + 1)] + [[k, "cb", 0]]
+            fails += [[k, "slot", p] for p in range(len(_slots(body)))] + [[k, "cb", 0]]
         for fail in fails:
-            for kind, tddl, tpm, ext in itertools.product(["pysqlite", "txddl"], [None, True, False], [False, True], [False, True]):
-                yield {"kind": kind, "tddl": tddl, "tpm": tpm, "external": ext, "cmd": cmd, "from": frm, "to": to,
-                       "revs": revs, "fail": fail, "tag": tag}
+            for kind, tddl, tpm, ext in itertools.product(["pysqlite", "txddl"], [True, False], [False, True], [False, True]):
+                if fail is None:
+                    excs = ["exc"]
+                elif all_excs or fail[1] == "cb":
+                    excs = EXCS
+                else:
+                    rot[0] += 1
+                    excs = [EXCS[rot[0] % 3]]
+                for exc in excs:
+                    yield {"kind": kind, "tddl": tddl, "tpm": tpm, "external": ext, "cmd": cmd, "from": frm, "to": to,
+                           "revs": revs, "fail": fail, "exc": exc, "tag": tag}
 
 
 def _rand_history(rnd):
     n = rnd.randint(1, 5)
-    revs = []
-    for j in range(1, n + 1):
-        m = rnd.randint(0, 4)
-        up = []
-        for p in range(m):
-            d = rnd.randint(0, 1)
-            up.append([d, "add", (100 if d else 0) + 10 * j + p])
-        dn = [[d, "del", x] for d, _, x in up]
-        rnd.shuffle(dn)
-        dn = dn[:rnd.randint(0, len(dn))] if rnd.random() < 0.3 else dn
-        revs.append({"up": up, "dn": dn})
-    return revs
+    lays = []
+    for j in range(n):
+        lay = []
+        for _ in range(rnd.randint(0, 4)):
+            if rnd.random() < 0.3:
+                lay.append(("a", [rnd.randint(0, 1) for _ in range(rnd.randint(0, 2))]))
+            else:
+                lay.append(rnd.randint(0, 1))
+        lays.append(lay)
+    return _mk_history(lays)
 
 
 def generate(tier, seed):
-    for n in (1, 2, 3):
-        for off in range(4):
-            yield from _cases_for(_mk_history(n, off), "n%d" % n)
+    rot = [seed]
+    P = LAYOUTS
+    hs = [([P[o]], "n1", True) for o in range(4)]
+    hs += [([P[o], P[(o + 1) % 4]], "n2", False) for o in range(4)]
+    hs += [([P[0], P[1], P[2]], "n3", False)]
+    hs += [([A1], "n1-auto", True), ([A2], "n1-auto", True), ([A3], "n1-auto", True)]
+    hs += [([A1, P[0]], "n2-auto", False), ([P[1], A1], "n2-auto", False), ([A2, A1], "n2-auto", False)]
+    hs += [([P[0], A1, P[3]], "n3-auto", False)]
+    for lays, tag, allx in hs:
+        yield from _cases_for(_mk_history(lays), tag, allx, rot)
     if tier == "thorough":
         rnd = random.Random(seed * 7919 + 4)
         for _ in range(60):
             revs = _rand_history(rnd)
-            cs = list(_cases_for(revs, "random"))
+            cs = list(_cases_for(revs, "random", False, rot))
             for c in rnd.sample(cs, min(len(cs), 400)):
                 yield c
 
 
 def search(tier, seed):
     rnd = random.Random(seed * 104729 + 4)
+    rot = [seed]
     for _ in range(25):
         revs = _rand_history(rnd)
-        cs = list(_cases_for(revs, "random"))
+        cs = list(_cases_for(revs, "random", False, rot))
         for c in rnd.sample(cs, min(len(cs), 300)):
             yield c
 
@@ -176,10 +227,21 @@ def _sql(st):
 
 
 def _fn(name, direction, body):
-    lines = ["    _f(%r, 0)" % direction]
-    for p, st in enumerate(body):
-        lines.append("    op.execute(%r)" % _sql(st))
-        lines.append("    _f(%r, %d)" % (direction, p + 1))
+    lines, n = [], 0
+    for it in body:
+        lines.append("    _f(%r, %d)" % (direction, n))
+        n += 1
+        if it[0] == "a":
+            lines.append("    with op.get_context().autocommit_block():")
+            for st in it[1]:
+                lines.append("        _f(%r, %d)" % (direction, n))
+                n += 1
+                lines.append("        op.execute(%r)" % _sql(st))
+            lines.append("        _f(%r, %d)" % (direction, n))
+            n += 1
+        else:
+            lines.append("    op.execute(%r)" % _sql(it[1:]))
+    lines.append("    _f(%r, %d)" % (direction, n))
     return "def %s():\n%s\n" % (name, "\n".join(lines))
 
 
@@ -210,6 +272,28 @@ def _stmt(st):
     return "%s (%s %d)" % ("DDL" if d else "DML", "Add" if what == "add" else "Del", x)
 
 
+def _coq_body(body, slot):
+    """the body as list bitem, with the raise put where the failing slot is"""
+    items = []
+    for t, it in enumerate(body):
+        if slot == ("out", t):
+            items.append("BRaise")
+        if it[0] == "a":
+            inner = []
+            for q, st in enumerate(it[1]):
+                if slot == ("in", t, q):
+                    inner.append("ARaise")
+                inner.append("AStmt (%s)" % _stmt(st))
+            if slot == ("in", t, len(it[1])):
+                inner.append("ARaise")
+            items.append("BAuto %s" % cf.lst(inner))
+        else:
+            items.append("BStmt (%s)" % _stmt(it[1:]))
+    if slot == ("out", len(body)):
+        items.append("BRaise")
+    return cf.lst(items)
+
+
 def run_case(h):
     import logging
     import sqlite3
@@ -219,7 +303,7 @@ def run_case(h):
     logging.disable(logging.CRITICAL)
     warnings.simplefilter("ignore")
     revs = h["revs"]
-    n = len(revs)
+    exc_cls = {"exc": Boom, "kbd": KeyboardInterrupt, "exit": SystemExit}[h.get("exc", "exc")]
     d = tempfile.mkdtemp(prefix="avc04", dir="/dev/shm" if os.path.isdir("/dev/shm") and os.access("/dev/shm", os.W_OK) else None)
     try:
         os.makedirs(os.path.join(d, "versions"))
@@ -244,12 +328,14 @@ def run_case(h):
             c = Config()
             c.set_main_option("script_location", d)
             c.attributes.update(url=url, kind=h["kind"], tpm=h["tpm"], tddl=h["tddl"], external=h["external"],
-                                fail=fail, exc=Boom)
+                                fail=fail, exc=exc_cls)
             return c
 
-        # set-up: bring the database to the starting revision (a run without failure under the same settings)
+        # set-up: bring the database to the starting revision (a run without failure, default settings)
         if h["from"] > 0:
-            command.upgrade(cfg(None), "r%d" % h["from"])
+            c0 = cfg(None)
+            c0.attributes.update(tpm=True, tddl=None, external=False)
+            command.upgrade(c0, "r%d" % h["from"])
         before = _state(url)
 
         up = h["cmd"] == "upgrade"
@@ -258,39 +344,50 @@ def run_case(h):
         if h["fail"] is not None:
             k, where, p = h["fail"]
             fail = ("r%d" % order[k], "up" if up else "dn", "cb" if where == "cb" else p)
-        raised = False
+        raised = None
         try:
             if up:
                 command.upgrade(cfg(fail), "r%d" % h["to"])
             else:
                 command.downgrade(cfg(fail), "r%d" % h["to"] if h["to"] > 0 else "base")
         except Boom:
-            raised = True
+            raised = "Boom"
+        except KeyboardInterrupt:
+            raised = "KeyboardInterrupt"
+        except SystemExit:
+            raised = "SystemExit"
+        except AssertionError:
+            raised = "AssertionError"         # autocommit_block() under a caller-held transaction
         after = _state(url)
     finally:
         shutil.rmtree(d, ignore_errors=True)
 
     steps = []
-    for j in order:
+    has_auto = False
+    for k, j in enumerate(order):
         body = revs[j - 1]["up" if up else "dn"]
+        has_auto = has_auto or any(it[0] == "a" for it in body)
+        slot, cb = None, False
+        if h["fail"] is not None and h["fail"][0] == k:
+            if h["fail"][1] == "cb":
+                cb = True
+            else:
+                slot = _slots(body)[h["fail"][2]]
         if up:
             ver = "VIns %d" % j if j == 1 else "VUpd %d %d" % (j - 1, j)
         else:
             ver = "VDel %d" % j if j == 1 else "VUpd %d %d" % (j, j - 1)
-        steps.append("mkStep %s [%s]" % (cf.lst(_stmt(s) for s in body), ver))
-    if h["fail"] is None:
-        cfail = "None"
-    else:
-        k, where, p = h["fail"]
-        cfail = "(Some (%d%%nat, %s))" % (k, "FCallback" if where == "cb" else "FBody %d%%nat" % p)
+        steps.append("mkStep %s [%s] %s" % (_coq_body(body, slot), ver, cf.boolean(cb)))
     eff_tddl = bool(h["tddl"])          # SQLiteImpl.transactional_ddl = False unless overridden
     cin = "(mkIn %s %s %s %s %s %s %s)" % (
         "TxDDL" if h["kind"] == "txddl" else "Pysqlite", cf.boolean(eff_tddl), cf.boolean(h["tpm"]),
-        cf.boolean(h["external"]), cf.lst(steps), cfail, _db(before))
-    cout = "(mkOut %s %s)" % (_db(after), cf.boolean(raised))
+        cf.boolean(h["external"]), cf.lst(steps), _db(before),
+        {"exc": "ExcException", "kbd": "ExcKeyboardInterrupt", "exit": "ExcSystemExit"}[h.get("exc", "exc")])
+    cout = "(mkOut %s %s)" % (_db(after), cf.boolean(raised is not None))
     one = h["external"] or (eff_tddl and not h["tpm"])
-    shape = "%s-%s-%s-%s" % (h["kind"], h["cmd"], "one-txn" if one else "per-migration",
-                             "ok" if h["fail"] is None else ("fail-cb" if h["fail"][1] == "cb" else "fail-body"))
+    shape = "%s-%s-%s%s-%s" % (h["kind"], h["cmd"], "one-txn" if one else "per-migration", "-autocommit" if has_auto else "",
+                               "ok" if h["fail"] is None else ("fail-cb" if h["fail"][1] == "cb" else "fail-body") +
+                               ("" if h.get("exc", "exc") == "exc" else "-BaseException"))
     return dict(cin=cin, cout=cout, out={"before": before, "after": after, "raised": raised},
                 nontrivial=h["fail"] is not None, shape=shape)
 
